@@ -28,7 +28,7 @@ func TestRegress(t *testing.T) { harness.RunRegress(t) }
 const kfFC17 = "fc17-tcp-truncated-reply-parsed"
 
 // Fault kinds.
-var faults = []string{"stall", "eof", "eof-with-bytes", "ioerr", "ioerr-with-bytes", "oversize", "oversize-frame", "write", "cancel-before", "cancel-in-read", "deadline-before", "deadline-in-stall", "not-connected", "connect-failed", "nil-request"}
+var faults = []string{"stall", "eof", "eof-with-bytes", "ioerr", "ioerr-with-bytes", "ioerr-timeout-typed", "oversize", "oversize-frame", "write", "cancel-before", "cancel-in-read", "deadline-before", "deadline-in-stall", "not-connected", "connect-failed", "nil-request"}
 
 type faultCase struct {
 	Kind    string   `json:"kind"`
@@ -119,6 +119,10 @@ func prepare(c faultCase) (prep, error) {
 	case "ioerr", "ioerr-with-bytes":
 		p.faultIdx = len(ev)
 		ev = append(ev, xport.Event{Kind: "ioerr", N: lastChunk})
+	case "ioerr-timeout-typed":
+		// a fatal I/O failure whose error type reports Timeout() == true (ETIMEDOUT and friends) without being the poll deadline
+		p.faultIdx = len(ev)
+		ev = append(ev, xport.Event{Kind: "ioerr-timeout", N: 0})
 	case "oversize":
 		p.faultIdx = len(ev)
 		stream = append(stream[:pre:pre], bytes.Repeat([]byte{0x5A}, 400)...)
@@ -204,6 +208,9 @@ func judge(c faultCase, p prep, o cli.Outcome) harness.Result {
 	if o.PriorHung {
 		return harness.Fail("an earlier request call (%s) on the same client did not return within %v", c.Prior, cli.HangCeiling)
 	}
+	if msg := o.PriorIntact(); msg != "" {
+		return harness.Fail("%s (fault %s)", msg, c.Fault)
+	}
 	if o.Hung {
 		return harness.Fail("request call did not return within %v (fault %s after %d reply bytes, earlier call on this client: %q)", cli.HangCeiling, c.Fault, c.Prefix, c.Prior)
 	}
@@ -241,6 +248,10 @@ func judge(c faultCase, p prep, o cli.Outcome) harness.Result {
 	case "ioerr", "ioerr-with-bytes":
 		if !isCE || !errors.Is(o.Err, xport.ErrIO) {
 			return harness.Fail(desc+"I/O failure not reported as *ClientError wrapping the cause: %T %v", o.Err, o.Err)
+		}
+	case "ioerr-timeout-typed":
+		if !isCE || !errors.Is(o.Err, xport.ErrIOTimeout) {
+			return harness.Fail(desc+"fatal I/O failure (a net.Error with Timeout()==true that is not the read deadline) not reported as *ClientError wrapping the cause: %T %v", o.Err, o.Err)
 		}
 	case "oversize":
 		if !isCE || !errors.Is(o.Err, &modbus.ErrPacketTooLong) {
